@@ -19,7 +19,7 @@ RULE = ("Hypothesis draws an environment (scalar/vector/matrix variables, parame
         ">= 3 operator nodes, value depends on a variable, and V is not the expression's own variables "
         "in natural order; distinct by SHA-1 of the canonical case."
         '  Also: the same expression object is compiled a second time against another variable list (extra variables inserted / permuted) and judged again.')
-BUDGET = {"quick": {"workers": 16, "examples": 400}, "thorough": {"workers": 16, "examples": 10000}}
+BUDGET = {"quick": {"workers": 16, "examples": 700}, "thorough": {"workers": 16, "examples": 10000}}
 ASSUMPTIONS = ["NumPy ufuncs are the definition of the 18 elementary functions",
                "points with a non-finite or > 1e6 intermediate are outside the judged domain"]
 
